@@ -55,6 +55,7 @@ func (s *PersistentHybridIndex) compactSegments(segments []*segmentMetadata) err
 
 	// Merge all segments into the new index
 	for _, seg := range segments {
+		verifPoint("compact:load")
 		// Load segment
 		_, err := seg.getIndex(
 			s.config.VectorIndexTemplate,
@@ -72,6 +73,7 @@ func (s *PersistentHybridIndex) compactSegments(segments []*segmentMetadata) err
 		totalDocs += seg.numDocs
 	}
 
+	verifPoint("compact:write")
 	// Generate new segment ID and paths
 	newSegmentID := s.provider.nextSegmentID()
 	hybridPath, vectorPath, textPath, metadataPath := s.provider.segmentPaths(newSegmentID)
@@ -91,24 +93,29 @@ func (s *PersistentHybridIndex) compactSegments(segments []*segmentMetadata) err
 	newSegment := newSegmentMetadata(newSegmentID, hybridPath, vectorPath, textPath, metadataPath)
 	newSegment.updateStats(totalDocs, totalSize)
 
+	verifPoint("compact:swap")
 	// Atomically swap segments
 	s.mu.Lock()
 
 	// Add new segment
 	s.segmentManager.add(newSegment)
+	verifPoint("compact:swap:added")
 
 	// Remove old segments
 	for _, seg := range segments {
 		s.segmentManager.remove(seg.id)
+		verifPoint("compact:swap:removed")
 
 		// Delete old segment files
 		if err := s.provider.deleteSegment(seg.id); err != nil {
 			// Log error but continue
 			fmt.Printf("failed to delete segment %d: %v\n", seg.id, err)
 		}
+		verifPoint("compact:swap:deleted")
 	}
 
 	s.mu.Unlock()
+	verifPoint("compact:done")
 
 	return nil
 }
@@ -118,12 +125,14 @@ func (s *PersistentHybridIndex) writeIndexToSegment(
 	idx HybridSearchIndex,
 	hybridPath, vectorPath, textPath, metadataPath string,
 ) error {
+	verifPoint("segwrite:begin")
 	// Create compressed writers
 	hybridFile, err := os.Create(hybridPath)
 	if err != nil {
 		return fmt.Errorf("failed to create hybrid file: %w", err)
 	}
 	defer hybridFile.Close()
+	verifPoint("segwrite:created:hybrid")
 
 	hybridGz := gzip.NewWriter(hybridFile)
 	defer hybridGz.Close()
@@ -138,6 +147,7 @@ func (s *PersistentHybridIndex) writeIndexToSegment(
 			return fmt.Errorf("failed to create vector file: %w", err)
 		}
 		defer vectorFile.Close()
+		verifPoint("segwrite:created:vector")
 
 		vectorGz = gzip.NewWriter(vectorFile)
 		defer vectorGz.Close()
@@ -150,6 +160,7 @@ func (s *PersistentHybridIndex) writeIndexToSegment(
 			return fmt.Errorf("failed to create text file: %w", err)
 		}
 		defer textFile.Close()
+		verifPoint("segwrite:created:text")
 
 		textGz = gzip.NewWriter(textFile)
 		defer textGz.Close()
@@ -162,6 +173,7 @@ func (s *PersistentHybridIndex) writeIndexToSegment(
 			return fmt.Errorf("failed to create metadata file: %w", err)
 		}
 		defer metadataFile.Close()
+		verifPoint("segwrite:created:metadata")
 
 		metadataGz = gzip.NewWriter(metadataFile)
 		defer metadataGz.Close()
@@ -183,17 +195,22 @@ func (s *PersistentHybridIndex) writeIndexToSegment(
 		return fmt.Errorf("failed to write index: %w", err)
 	}
 
+	verifPoint("segwrite:written")
 	// Close gzip writers
 	if vectorGz != nil {
 		vectorGz.Close()
+		verifPoint("segwrite:closed:vector")
 	}
 	if textGz != nil {
 		textGz.Close()
+		verifPoint("segwrite:closed:text")
 	}
 	if metadataGz != nil {
 		metadataGz.Close()
+		verifPoint("segwrite:closed:metadata")
 	}
 	hybridGz.Close()
+	verifPoint("segwrite:closed:hybrid")
 
 	return nil
 }
